@@ -134,6 +134,10 @@ func runCheck(o CheckOpts) int {
 		fmt.Fprintf(os.Stderr, "govc: contract error: %v\n", err)
 		return 2
 	}
+	if len(w.untagged) > 0 {
+		fmt.Fprintf(os.Stderr, "govc: contract error: contracts that are neither `assumed` nor tagged with a property (callers would rely on them unchecked): %s\n", strings.Join(w.untagged, ", "))
+		return 2
+	}
 	cons := w.propContracts(o.Prop)
 	if len(cons) == 0 {
 		fmt.Fprintf(os.Stderr, "govc: no contracts tagged %s\n", o.Prop)
